@@ -2,6 +2,7 @@ package guards
 
 import (
 	"fmt"
+	"go/types"
 
 	"golang.org/x/tools/go/ssa"
 )
@@ -28,8 +29,37 @@ func (e *Engine) initOnlyConst(g *ssa.Global, path []int) *ssa.Const {
 	return m[fmt.Sprint(path)]
 }
 
+// initOnlyElemsNonNil: g is an array that only its package initialiser writes, and the initialiser stores a non-nil
+// function (or other non-nil constant) into field chain `fields` of EVERY element: `table[i].f` is non-nil for every i.
+func (e *Engine) initOnlyElemsNonNil(g *ssa.Global, fields []int) bool {
+	e.initOnlyConst(g, nil) // make sure g has been scanned
+	if e.initConst[g] == nil {
+		return false
+	}
+	pt, ok := g.Type().Underlying().(*types.Pointer)
+	if !ok {
+		return false
+	}
+	arr, ok := pt.Elem().Underlying().(*types.Array)
+	if !ok || arr.Len() == 0 || arr.Len() > 1024 {
+		return false
+	}
+	for i := int64(0); i < arr.Len(); i++ {
+		k := fmt.Sprint(append([]int{-1 - int(i)}, fields...))
+		if !e.initNonNil[g][k] {
+			return false
+		}
+	}
+	return true
+}
+
 func (e *Engine) scanInitOnly(g *ssa.Global) map[string]*ssa.Const {
 	out := map[string]*ssa.Const{}
+	if e.initNonNil == nil {
+		e.initNonNil = map[*ssa.Global]map[string]bool{}
+	}
+	nonNil := map[string]bool{}
+	e.initNonNil[g] = nonNil
 	var fns []*ssa.Function
 	fns = append(fns, e.moduleFuncs...)
 	if g.Pkg != nil {
@@ -50,6 +80,19 @@ func (e *Engine) scanInitOnly(g *ssa.Global) map[string]*ssa.Const {
 				if u.X != addr || !addrOK(u, append(append([]int(nil), path...), u.Field), inInit) {
 					return false
 				}
+			case *ssa.IndexAddr:
+				// element address: a constant index in the initialiser is a path step (encoded -1-i); elsewhere the
+				// element may only be read
+				if u.X != addr {
+					return false
+				}
+				step := -1 << 30
+				if k, ok := ConstInt(u.Index); ok && k >= 0 && k < 1<<20 {
+					step = -1 - int(k)
+				}
+				if !addrOK(u, append(append([]int(nil), path...), step), inInit && step != -1<<30) {
+					return false
+				}
 			case *ssa.Store:
 				if u.Addr != addr || !inInit {
 					return false
@@ -63,6 +106,12 @@ func (e *Engine) scanInitOnly(g *ssa.Global) map[string]*ssa.Const {
 					c = nil
 				}
 				out[k] = c
+				switch v := u.Val.(type) {
+				case *ssa.Function, *ssa.MakeClosure, *ssa.Alloc, *ssa.MakeSlice, *ssa.MakeMap:
+					nonNil[k] = true
+				case *ssa.Const:
+					nonNil[k] = v.Value != nil
+				}
 			case *ssa.DebugRef:
 			default:
 				return false
@@ -87,6 +136,14 @@ func (e *Engine) scanInitOnly(g *ssa.Global) map[string]*ssa.Const {
 					case *ssa.UnOp:
 					case *ssa.FieldAddr:
 						if !addrOK(u, []int{u.Field}, inInit) {
+							ok = false
+						}
+					case *ssa.IndexAddr:
+						step := -1 << 30
+						if k, isK := ConstInt(u.Index); isK && k >= 0 && k < 1<<20 {
+							step = -1 - int(k)
+						}
+						if u.X != ssa.Value(g) || !addrOK(u, []int{step}, inInit && step != -1<<30) {
 							ok = false
 						}
 					case *ssa.Store:
